@@ -15,7 +15,8 @@ Record pcase := mkpcase {
   pc_is_file : bool;             (* target is models.File *)
   pc_root : Z * Z;               (* store indexes of the returned model's first/last token after build() *)
   pc_store : list lexeme;        (* the store when parse() returned (after auto_claim_comments, if on) *)
-  pc_spans : list (Z * Z)        (* (first, last) store index of every sub-model reachable from the result *)
+  pc_spans : list (Z * Z);       (* (first, last) store index of every sub-model reachable from the result *)
+  pc_acc : bool                  (* auto_claim_comments *)
 }.
 
 Definition str_eqb (a b : str) : bool := list_eqb Z.eqb a b.
@@ -24,6 +25,17 @@ Definition lexemes_eqb (a b : list lexeme) : bool := list_eqb lexeme_eqb a b.
 
 Definition span_ok (n : Z) (s : Z * Z) : bool :=
   (0 <=? fst s) && (fst s <=? snd s) && (snd s <? n).
+
+(* the spans Builder.v assigns to the result and everything nested in it (tokens, Repeated, models) *)
+Fixpoint all_spans (b : btree) : list (Z * Z) :=
+  (match bfirst b, blast b with Some a, Some z => [(a, z)] | _, _ => [] end)
+  ++ match b with
+     | BRep p items => (p, p) :: flat_map all_spans items
+     | BModel cs => flat_map all_spans cs
+     | _ => []
+     end.
+
+Definition pair_eqb (x y : Z * Z) : bool := (fst x =? fst y) && (snd x =? snd y).
 
 (* 0 = everything agrees; otherwise the first part that does not *)
 Definition check_code (c : pcase) : Z :=
@@ -48,6 +60,10 @@ Definition check_code (c : pcase) : Z :=
       if negb (lexemes_eqb (filter has_text (pc_store c)) (filter has_text (built st))) then 7 else
       (* every sub-model's span is a segment of the store *)
       if negb (forallb (span_ok (zlen (pc_store c))) (pc_spans c)) then 8 else
+      (* without claiming, every sub-model's first/last token is the one Builder.v computes *)
+      if negb (pc_acc c) &&
+         negb (let ms := (if pc_is_file c then [(0, zlen (built st) - 1)] else []) ++ all_spans b in
+               forallb (fun s => existsb (pair_eqb s) ms) (pc_spans c)) then 9 else
       0
   end.
 
